@@ -60,6 +60,12 @@ def run(ctx):
     lays = [l for l in all_lays if l["c"] in (0, 1)]
     ctx.extra["unreachable_table_entries"] = sorted({"%s %s" % (("GET", "SET", "POLL")[l["m"]], l["name"]) for l in lays if not l["reachable"]})
     run_batch(ctx, MODULE, CFG, c02.cases(ctx, lays, ("zero", "one"), prop="C16"), walk.OBSERVERS, sigfn, c02.negfn, chunk=6000)
+    # variants of one message whose payloads have the SAME length (counts computed from the TLC layouts): each must still be parsed by
+    # its own definition - a declared variant stays usable next to its siblings
+    col = walk.collision_layouts(ctx, all_lays)
+    if col:
+        run_batch(ctx, MODULE, CFG, c02.cases(ctx, col, ("rand", "zero"), prop="C16"), walk.OBSERVERS, sigfn, c02.negfn, chunk=300)
+    ctx.extra["variant_length_collisions"] = len(col)
     # the nominal instances again in child interpreters started with -bb (bytes / str confusion is an error there) and with -O:
     # a declared message type is usable in every interpreter mode (static, constructor and stream routes rotate inside the observer)
     from . import run_opt
